@@ -1203,6 +1203,181 @@ func (g *gen) idiomStmt() string {
 	}
 }
 
+// "fork" pattern: a container is built by a chain of appends / merges / index assignments (sizes crossing the
+// small/large thresholds, so that a large value may carry spare capacity or a shared backing store), then two or
+// three values are derived from the SAME base by different operations, and all of them and the base are printed.
+// Containers are values: no derived value may see another's change.  Also through a function parameter and a
+// loop variable.
+func (g *gen) forkStmt() string {
+	g.feat("fork")
+	var sb strings.Builder
+	w := func(f string, a ...any) { sb.WriteString(fmt.Sprintf(f, a...) + "\n") }
+	small := func() string { return fmt.Sprint(g.n(50)) }
+	if g.pct(60) { // ---------------- arrays
+		g.feat("fork-array")
+		base := g.fresh("fa")
+		n0 := []int{0, 3, 5, 6, 7, 8, 8, 9, 9, 10, 12}[g.n(11)]
+		parts := make([]string, n0)
+		for i := range parts {
+			parts[i] = fmt.Sprint(i + 1)
+		}
+		w("%s = [%s]", base, strings.Join(parts, ", "))
+		k := 1 + g.n(4)
+		for i := 0; i < k; i++ {
+			switch g.n(6) {
+			case 0, 1, 2:
+				w("%s = %s + %s", base, base, small())
+			case 3:
+				w("%s = %s + [%s, %s]", base, base, small(), small())
+			case 4:
+				w("%s = %s + %s + %s", base, base, small(), small())
+			default:
+				w("%s[%s] = %s", base, g.pick("0", "-1", "1", "-2"), small())
+			}
+		}
+		nd := 2 + g.n(2)
+		var ds []string
+		mode := g.n(4)
+		deriveOps := func(src string) []string {
+			var out []string
+			for j := 0; j < nd; j++ {
+				d := g.fresh("fd")
+				ds = append(ds, d)
+				switch g.n(7) {
+				case 0, 1, 2:
+					out = append(out, fmt.Sprintf("%s = %s + %d", d, src, 100+j))
+				case 3:
+					out = append(out, fmt.Sprintf("%s = %s + [%d]", d, src, 200+j))
+				case 4:
+					out = append(out, fmt.Sprintf("%s = %s + [%d, %d]", d, src, 300+j, 310+j))
+				case 5:
+					out = append(out, fmt.Sprintf("%s = %s\n%s[%s] = %d", d, src, d, g.pick("0", "-1", "1"), 400+j))
+				default:
+					out = append(out, fmt.Sprintf("%s = %s + %d + %d", d, src, 500+j, 510+j))
+				}
+			}
+			return out
+		}
+		switch mode {
+		case 0, 1: // directly
+			for _, l := range deriveOps(base) {
+				w("%s", l)
+			}
+			for _, d := range ds {
+				w("println(%s, %s[-1], len(%s))", d, d, d)
+			}
+			w("println(%s)", base)
+		case 2: // through a function parameter
+			g.feat("fork-param")
+			fn, p := g.fresh("fk"), g.fresh("p")
+			ops := deriveOps(p)
+			w("func %s(%s) {%s\n[%s, %s]}", fn, p, strings.Join(ops, "\n"), strings.Join(ds, ", "), p)
+			w("println(%s(%s))", fn, base)
+			w("println(%s(%s + 1))", fn, base)
+			w("println(%s)", base)
+		default: // through a loop variable
+			g.feat("fork-loopvar")
+			x := g.fresh("fx")
+			ops := deriveOps(x)
+			w("for %s = [%s, %s + 7] {%s\nprintln(%s, %s)}", x, base, base, strings.Join(ops, "\n"), strings.Join(ds, ", "), x)
+			acc, i := g.fresh("facc"), g.fresh("i")
+			w("%s = []\nfor %s = 3 {%s = %s + [%s + %s]}", acc, i, acc, acc, base, i)
+			w("println(%s, %s)", acc, base)
+		}
+		g.declare(&vinfo{name: base, t: tArr, elem: tInt})
+	} else { // ---------------- maps
+		g.feat("fork-map")
+		base := g.fresh("fm")
+		n0 := []int{0, 1, 2, 3, 3, 4, 4, 5, 5, 6, 9}[g.n(11)]
+		parts := make([]string, n0)
+		for i := range parts {
+			parts[i] = fmt.Sprintf("%d: %d", 2*i+1, i)
+		}
+		w("%s = {%s}", base, strings.Join(parts, ", "))
+		k := 1 + g.n(4)
+		for i := 0; i < k; i++ {
+			switch g.n(5) {
+			case 0, 1:
+				w("%s = %s + {%d: %s}", base, base, g.n(14), small())
+			case 2:
+				w("%s[%d] = %s", base, g.n(14), small())
+			case 3:
+				w("%s = %s + {%d: %s, %d: %s}", base, base, g.n(14), small(), g.n(14), small())
+			default:
+				w("del(%s[%d])", base, g.n(10))
+			}
+		}
+		nd := 2 + g.n(2)
+		var ds []string
+		derive := func(src string) []string {
+			var out []string
+			for j := 0; j < nd; j++ {
+				d := g.fresh("fd")
+				ds = append(ds, d)
+				switch g.n(5) {
+				case 0, 1:
+					out = append(out, fmt.Sprintf("%s = %s + {%d: %d}", d, src, 20+g.n(3), 100+j))
+				case 2:
+					out = append(out, fmt.Sprintf("%s = %s\n%s[%d] = %d", d, src, d, g.n(14), 200+j))
+				case 3:
+					out = append(out, fmt.Sprintf("%s = %s\ndel(%s[%d])", d, src, d, 1+2*g.n(5)))
+				default:
+					out = append(out, fmt.Sprintf("%s = %s + {%d: %d}", d, src, 1+2*g.n(4), 300+j))
+				}
+			}
+			return out
+		}
+		switch g.n(3) {
+		case 0:
+			for _, l := range derive(base) {
+				w("%s", l)
+			}
+			for _, d := range ds {
+				w("println(%s, len(%s))", d, d)
+			}
+			w("println(%s)", base)
+		case 1:
+			g.feat("fork-param")
+			fn, p := g.fresh("fk"), g.fresh("p")
+			ops := derive(p)
+			w("func %s(%s) {%s\n[%s, %s]}", fn, p, strings.Join(ops, "\n"), strings.Join(ds, ", "), p)
+			w("println(%s(%s))", fn, base)
+			w("println(%s)", base)
+		default:
+			g.feat("fork-loopvar")
+			x := g.fresh("fx")
+			ops := derive(x)
+			w("for %s = [%s, %s + {77: 7}] {%s\nprintln(%s, %s)}", x, base, base, strings.Join(ops, "\n"), strings.Join(ds, ", "), x)
+			w("println(%s)", base)
+		}
+		g.declare(&vinfo{name: base, t: tMap, keys: tInt, elem: tInt})
+	}
+	return strings.TrimSuffix(sb.String(), "\n")
+}
+
+// a program made mostly of fork patterns (its own stream in the harness)
+func (g *gen) forkProgram() string {
+	var parts []string
+	n := 1 + g.n(3)
+	for i := 0; i < n; i++ {
+		parts = append(parts, g.forkStmt())
+		if g.pct(30) {
+			parts = append(parts, g.stmt(1, tAny))
+		}
+	}
+	var fin []string
+	for _, v := range g.scopes[0].vars {
+		if v.t != tFun {
+			fin = append(fin, v.name)
+		}
+	}
+	body := strings.Join(parts, "\n")
+	if len(fin) > 0 {
+		body += "\n[" + strings.Join(fin, ", ") + "]"
+	}
+	return strings.ReplaceAll(body, "\n", ";\n")
+}
+
 func (g *gen) stmt(nest int, ret ty) string {
 	g.size++
 	d := 1 + g.n(3)
@@ -1229,6 +1404,9 @@ func (g *gen) stmt(nest int, ret ty) string {
 		}
 		return g.printStmt(d)
 	case k < 83 && !g.inFunc() && g.inLoop == 0:
+		if g.pct(40) {
+			return g.forkStmt()
+		}
 		return g.closureStmt()
 	case k < 86:
 		return g.outerClosureStmt()
